@@ -772,7 +772,7 @@ fn sub_frames(_tier: Tier) -> Sub {
 }
 
 fn sub_forest(tier: Tier) -> Sub {
-    let nmax = tier.pick(2usize, 3);
+    let nmax = if mcx::deep() { 4 } else { tier.pick(2usize, 3) };
     let shapes = super::shapes_upto(nmax);
     let encs = Enc::all16();
     let len = (shapes.len() * shapes.len()) as u64 * 16;
@@ -819,7 +819,7 @@ fn sub_forest(tier: Tier) -> Sub {
 
 /// Every sequence of range / location list entries over a 7-symbol alphabet.
 fn sub_lists(tier: Tier) -> Sub {
-    let maxlen = tier.pick(2u32, 3);
+    let maxlen = if mcx::deep() { 4 } else { tier.pick(2u32, 3) };
     let nseq = mcx::space::seq_count(7, 1, maxlen);
     let encs = Enc::all16();
     let len = nseq * 16 * 2 * 2;
